@@ -48,7 +48,10 @@ CFG = dict(
           "size x modification time (os.Chtimes) x content, and two-step sequences onto one destination (CopyFile X->D by the code "
           "under test, then Y->D with X's size and mtime); related names of source and destination (source = <dest> + '.tmp' '~' '.bak' "
           "'.part' '.new' '.old' '.swp' in the destination's directory, and the reverse), against missing / file / directory / "
-          "symlink destinations; and real faults without hooks: "
+          "symlink destinations; sources whose stat size is not what reading yields - "
+          "a stable /proc file (read only, CopyFile only) and a FIFO in the sandbox fed by a writer goroutine (CopyFile; MoveFile across "
+          "devices) - judged by the specification on the observed outcome only ('S' lines: outside the file-system model); "
+          "and real faults without hooks: "
           "destination a symlink (in the scratch directory) to /dev/full (create follows it and succeeds, every write fails with ENOSPC), and - unless running as "
           "root - an unwritable destination directory and an unreadable source; real files, one case = one call on a freshly "
           "arranged directory; non-trivial = distinct case lines"),
@@ -57,7 +60,9 @@ CFG = dict(
                   "a system call fails (without effect; the data copy possibly after a prefix was stored); tied to the kernel on "
                   "the explored scenarios: the observed outcome class must equal the model's for every case",
                   "the file systems used by the harness: the one holding /verif/.build, the tmpfs /dev/shm, devtmpfs (/dev/full)"],
-    assumptions=["two alias policies are modelled and proved for CopyFile onto the source itself: refuse (error, as at HEAD) and no-op "
+    assumptions=["the model's source is a regular file whose size is the length of its content; /proc files and FIFOs (stat size 0, content on "
+                 "read) are not modelled - they are exercised by the harness and judged by the property statement on the outcome only",
+                 "two alias policies are modelled and proved for CopyFile onto the source itself: refuse (error, as at HEAD) and no-op "
                  "(nil, nothing touched; MoveFile then tests for the alias itself after a failed rename and returns the rename error - "
                  "without that test the model loses the file: move_noop_without_test_refuted); the run must agree with one "
                  "(strategy x alias policy) variant on every case (driver stats strategy, alias_policy)",
